@@ -1,0 +1,337 @@
+//! Verification hooks (cargo feature `verif`, off by default).
+//!
+//! This module is only compiled with `--features verif`. It lets an external
+//! harness observe (and, by blocking inside a hook, steer) the scheduling of
+//! worker tasks, and re-exports a few internal types so they can be driven
+//! directly. With the feature off nothing of this exists.
+//!
+//! All hooks dispatch to a process-global [`Controller`]. If none is installed,
+//! the `TXTPP_VERIF` environment variable can activate a small built-in
+//! controller (used with the `txtpp` binary):
+//!
+//! - `log=<file>`: append one line per hook event to `<file>`
+//! - `delay=<seed>:<max_us>`: sleep a seeded pseudo-random time (`0..max_us`) at the
+//!   hook points between tasks and around the coordinator's receive
+//! - `deadlock-exit`: when the coordinator can never make progress
+//!   (nothing in flight, everything received, `done != total`), print
+//!   `VERIF-DEADLOCK` and exit with status 86
+//! - `abort-at=<k>`: call `abort()` at the k-th hook event (1-based)
+//!
+//! Options are separated by `,`.
+
+use std::io::Write;
+use std::path::{Path, PathBuf};
+use std::sync::{Arc, Mutex, OnceLock};
+
+pub use crate::core::{Directive, DirectiveType, TagState};
+
+/// Kind of a worker task
+#[derive(Debug, Clone, Copy, PartialEq, Eq, Hash)]
+pub enum TaskKind {
+    /// Scanning a directory
+    ScanDir,
+    /// First pass over a file (execute until first dependency, then collect dependencies)
+    FirstPass,
+    /// Final pass over a file (all dependencies are finished)
+    FinalPass,
+}
+
+/// What the coordinator received from a worker
+#[derive(Debug, Clone, PartialEq, Eq)]
+pub enum Received {
+    /// Directory scanned (ok or error)
+    ScanDir { ok: bool },
+    /// File reported dependencies
+    HasDeps { file: PathBuf, deps: Vec<PathBuf> },
+    /// File completed
+    Done { file: PathBuf },
+    /// File failed
+    Failed,
+}
+
+/// Receiver of hook events. All methods default to no-op.
+///
+/// Methods may block; that is how a harness controls the schedule.
+#[allow(unused_variables)]
+pub trait Controller: Send + Sync {
+    /// The thread pool was created with this many threads
+    fn run_begin(&self, threads: usize) {}
+    /// The coordinator loop (and the post-loop checks) finished
+    fn run_end(&self, ok: bool) {}
+    /// The runtime was dropped (pool joined, channel drained)
+    fn run_dropped(&self) {}
+    /// The coordinator is about to poll the result channel
+    fn coordinator_poll(&self, done: usize, total: usize) {}
+    /// The coordinator received a result
+    fn result_received(&self, received: &Received) {}
+    /// The coordinator queued a task on the pool. Returns an id for the task
+    fn task_spawned(&self, kind: TaskKind, path: &Path) -> u64 {
+        0
+    }
+    /// A worker thread picked up the task (before doing any work)
+    fn task_begin(&self, id: u64) {}
+    /// The task computed its result (before sending it to the coordinator)
+    fn task_result_ready(&self, id: u64, ok: bool) {}
+    /// The task closure ended: result sent, or the worker is panicking
+    fn task_end(&self, id: u64, panicked: bool) {}
+    /// A point inside file IO of a task (named, with the path concerned)
+    fn io_point(&self, name: &'static str, path: &Path) {}
+}
+
+static CONTROLLER: Mutex<Option<Arc<dyn Controller>>> = Mutex::new(None);
+static ENV_CONTROLLER: OnceLock<Option<Arc<dyn Controller>>> = OnceLock::new();
+
+/// Install (or remove) the process-global controller
+pub fn install(controller: Option<Arc<dyn Controller>>) {
+    *lock(&CONTROLLER) = controller;
+}
+
+fn lock<T>(m: &Mutex<T>) -> std::sync::MutexGuard<'_, T> {
+    match m.lock() {
+        Ok(g) => g,
+        Err(e) => e.into_inner(),
+    }
+}
+
+fn current() -> Option<Arc<dyn Controller>> {
+    if let Some(c) = lock(&CONTROLLER).as_ref() {
+        return Some(c.clone());
+    }
+    ENV_CONTROLLER
+        .get_or_init(|| {
+            std::env::var("TXTPP_VERIF")
+                .ok()
+                .filter(|s| !s.is_empty())
+                .map(|s| Arc::new(EnvController::new(&s)) as Arc<dyn Controller>)
+        })
+        .clone()
+}
+
+pub(crate) fn run_begin(threads: usize) {
+    if let Some(c) = current() {
+        c.run_begin(threads);
+    }
+}
+
+pub(crate) fn run_end(ok: bool) {
+    if let Some(c) = current() {
+        c.run_end(ok);
+    }
+}
+
+pub(crate) fn run_dropped() {
+    if let Some(c) = current() {
+        c.run_dropped();
+    }
+}
+
+pub(crate) fn coordinator_poll(done: usize, total: usize) {
+    if let Some(c) = current() {
+        c.coordinator_poll(done, total);
+    }
+}
+
+pub(crate) fn result_received(received: Received) {
+    if let Some(c) = current() {
+        c.result_received(&received);
+    }
+}
+
+pub(crate) fn io_point(name: &'static str, path: &Path) {
+    if let Some(c) = current() {
+        c.io_point(name, path);
+    }
+}
+
+/// Handle of a spawned task, moved into the worker closure
+pub(crate) struct Task {
+    controller: Option<Arc<dyn Controller>>,
+    id: u64,
+}
+
+pub(crate) fn task_spawned(kind: TaskKind, path: &Path) -> Task {
+    let controller = current();
+    let id = match &controller {
+        Some(c) => c.task_spawned(kind, path),
+        None => 0,
+    };
+    Task { controller, id }
+}
+
+impl Task {
+    /// Call as the first statement of the worker closure
+    pub(crate) fn begin(self) -> TaskGuard {
+        if let Some(c) = &self.controller {
+            c.task_begin(self.id);
+        }
+        TaskGuard { task: self }
+    }
+}
+
+/// Reports the end of the task when dropped (also when the worker panics)
+pub(crate) struct TaskGuard {
+    task: Task,
+}
+
+impl TaskGuard {
+    /// Call after the result is computed and before it is sent
+    pub(crate) fn result_ready(&self, ok: bool) {
+        if let Some(c) = &self.task.controller {
+            c.task_result_ready(self.task.id, ok);
+        }
+    }
+}
+
+impl Drop for TaskGuard {
+    fn drop(&mut self) {
+        if let Some(c) = &self.task.controller {
+            c.task_end(self.task.id, std::thread::panicking());
+        }
+    }
+}
+
+/// Built-in controller configured from the `TXTPP_VERIF` environment variable
+struct EnvController {
+    log: Option<Mutex<std::fs::File>>,
+    delay: Option<(u64, u64)>,
+    deadlock_exit: bool,
+    abort_at: Option<u64>,
+    state: Mutex<EnvState>,
+}
+
+#[derive(Default)]
+struct EnvState {
+    events: u64,
+    spawned: u64,
+    ended: u64,
+    panicked: u64,
+    received: u64,
+    rng: u64,
+}
+
+impl EnvController {
+    fn new(spec: &str) -> Self {
+        let mut c = Self {
+            log: None,
+            delay: None,
+            deadlock_exit: false,
+            abort_at: None,
+            state: Mutex::new(EnvState::default()),
+        };
+        for opt in spec.split(',') {
+            if let Some(path) = opt.strip_prefix("log=") {
+                c.log = std::fs::OpenOptions::new()
+                    .create(true)
+                    .append(true)
+                    .open(path)
+                    .ok()
+                    .map(Mutex::new);
+            } else if let Some(d) = opt.strip_prefix("delay=") {
+                if let Some((seed, max)) = d.split_once(':') {
+                    if let (Ok(seed), Ok(max)) = (seed.parse::<u64>(), max.parse::<u64>()) {
+                        c.delay = Some((seed, max));
+                        lock(&c.state).rng = seed.wrapping_mul(0x9E37_79B9_7F4A_7C15) | 1;
+                    }
+                }
+            } else if opt == "deadlock-exit" {
+                c.deadlock_exit = true;
+            } else if let Some(k) = opt.strip_prefix("abort-at=") {
+                c.abort_at = k.parse().ok();
+            }
+        }
+        c
+    }
+
+    /// Record one event; returns the delay to sleep (outside the lock)
+    fn event(&self, text: std::fmt::Arguments<'_>, may_delay: bool) {
+        let mut sleep_us = 0;
+        {
+            let mut s = lock(&self.state);
+            s.events += 1;
+            if let Some(log) = &self.log {
+                let _ = writeln!(lock(log), "{} {}", s.events, text);
+            }
+            if self.abort_at == Some(s.events) {
+                if let Some(log) = &self.log {
+                    let _ = writeln!(lock(log), "{} abort", s.events);
+                }
+                std::process::abort();
+            }
+            if may_delay {
+                if let Some((_, max)) = self.delay {
+                    // xorshift64
+                    s.rng ^= s.rng << 13;
+                    s.rng ^= s.rng >> 7;
+                    s.rng ^= s.rng << 17;
+                    if max > 0 {
+                        sleep_us = s.rng % max;
+                    }
+                }
+            }
+        }
+        if sleep_us > 0 {
+            std::thread::sleep(std::time::Duration::from_micros(sleep_us));
+        }
+    }
+}
+
+impl Controller for EnvController {
+    fn run_begin(&self, threads: usize) {
+        self.event(format_args!("run_begin threads={threads}"), false);
+    }
+    fn run_end(&self, ok: bool) {
+        self.event(format_args!("run_end ok={ok}"), false);
+    }
+    fn run_dropped(&self) {
+        self.event(format_args!("run_dropped"), false);
+    }
+    fn coordinator_poll(&self, done: usize, total: usize) {
+        self.event(format_args!("poll done={done} total={total}"), true);
+        if self.deadlock_exit && done != total {
+            let s = lock(&self.state);
+            // every spawned task ended (sent its result or died), every sent result was
+            // received, and still done != total: the coordinator can never leave its loop
+            if s.spawned == s.ended && s.received + s.panicked == s.ended {
+                drop(s);
+                self.event(format_args!("deadlock done={done} total={total}"), false);
+                eprintln!("VERIF-DEADLOCK done={done} total={total}");
+                std::process::exit(86);
+            }
+        }
+    }
+    fn result_received(&self, received: &Received) {
+        lock(&self.state).received += 1;
+        self.event(format_args!("recv {received:?}"), false);
+    }
+    fn task_spawned(&self, kind: TaskKind, path: &Path) -> u64 {
+        let id = {
+            let mut s = lock(&self.state);
+            s.spawned += 1;
+            s.spawned
+        };
+        self.event(
+            format_args!("spawn id={id} kind={kind:?} path={}", path.display()),
+            false,
+        );
+        id
+    }
+    fn task_begin(&self, id: u64) {
+        self.event(format_args!("begin id={id}"), true);
+    }
+    fn task_result_ready(&self, id: u64, ok: bool) {
+        self.event(format_args!("ready id={id} ok={ok}"), true);
+    }
+    fn task_end(&self, id: u64, panicked: bool) {
+        {
+            let mut s = lock(&self.state);
+            s.ended += 1;
+            if panicked {
+                s.panicked += 1;
+            }
+        }
+        self.event(format_args!("end id={id} panicked={panicked}"), false);
+    }
+    fn io_point(&self, name: &'static str, path: &Path) {
+        self.event(format_args!("io {name} {}", path.display()), true);
+    }
+}
